@@ -84,6 +84,36 @@ def serial_imap(f, items, **kw):
         yield dill.loads(blob)(it)
 
 
+def serial_uimap(f, items, **kw):
+    """Stand-in for the UNORDERED pool maps (p_uimap/p_umap): results in reversed submission order, one of the completion
+    orders the pool may legally produce."""
+    return iter(list(serial_imap(f, items))[::-1])
+
+
+def patch_pool_maps(st, wc):
+    """Replace whichever p_tqdm pool map the coordinator module uses (by identity, under any local name; or through the
+    p_tqdm module itself when it is used as `p_tqdm.p_imap`), so that a renamed or re-imported but equivalent map is not
+    mistaken for an abort of the code under test."""
+    import p_tqdm
+    ordered = {getattr(p_tqdm, n): (lambda f, items, **kw: list(serial_imap(f, items))) if n == 'p_map' else serial_imap
+               for n in ('p_imap', 'p_map') if hasattr(p_tqdm, n)}
+    unordered = {getattr(p_tqdm, n): (lambda f, items, **kw: list(serial_uimap(f, items))) if n == 'p_umap' else serial_uimap
+                 for n in ('p_uimap', 'p_umap') if hasattr(p_tqdm, n)}
+    found = 0
+    for name, val in list(vars(wc).items()):
+        try:
+            rep = ordered.get(val) or unordered.get(val)
+        except TypeError:
+            continue
+        if rep is not None:
+            st.enter_context(patched(wc, name, rep))
+            found += 1
+    if not found:
+        for fn, rep in list(ordered.items()) + list(unordered.items()):
+            st.enter_context(patched(p_tqdm, fn.__name__, rep))
+    return found
+
+
 @contextlib.contextmanager
 def patched(obj, name, new):
     old = getattr(obj, name)
@@ -121,7 +151,7 @@ def run_inprocess(case, wd, tag='x', serial=True, cpus=1, extensions=None, stdou
         with contextlib.ExitStack() as st:
             st.enter_context(patched(xr.XmapReader, 'writeAlignments', mon_write))
             if serial:
-                st.enter_context(patched(wc, 'p_imap', serial_imap))
+                patch_pool_maps(st, wc)
             if stdout_output:
                 st.enter_context(patched(sys, 'stdout', buf))
             args = Args.parse(run.argv)
